@@ -1,1 +1,86 @@
-(* placeholder *)
+(* C05 -- incrementally built converters stay consistent with their own records.
+   swf c: the indexes of c answer "the record of (recs c) that lists the key", and no string is claimed by two of its
+   records.  fold_c is the casefold table (any). *)
+From Curies.model Require Import Str PyData Trie Conv Query Val Answer Spec CheckQ Mutate.
+From Curies.proofs Require Import StrFacts IndexFacts QueryFacts C04Facts MutateFacts.
+
+Theorem C05_init : forall d rs c, mk_conv true d rs = Val c -> swf c.
+Proof. exact mk_conv_swf. Qed.
+Print Assumptions C05_init.
+
+(* one step, accepted *)
+Theorem C05_step : forall fold_c c r cs mg c', swf c -> add_record fold_c c r cs mg = Val c' -> swf c'.
+Proof. exact add_record_swf. Qed.
+Print Assumptions C05_step.
+Theorem C05_step_add_prefix : forall fold_c c p u ps us cs mg c', swf c -> add_prefix fold_c c p u ps us cs mg = Val c' -> swf c'.
+Proof. exact add_prefix_swf. Qed.
+Print Assumptions C05_step_add_prefix.
+
+(* every reachable state of every history (rejected calls leave the state as it was) *)
+Theorem C05_reachable : forall fold_c ops c, swf c -> swf (hrun fold_c c ops).
+Proof. exact reachable_swf. Qed.
+Print Assumptions C05_reachable.
+
+(* a consistent converter answers every query exactly as a converter freshly constructed from its current records,
+   namely by the naive specification; and the one-owner uniqueness of C04 holds *)
+Theorem C05_fresh_equiv : forall c, swf c ->
+  exists c0, mk_conv true (delim c) (recs c) = Val c0 /\
+    forall q, conv_query q = true -> answer c q = answer c0 q /\ answer c q = spec_answer (recs c) (delim c) q.
+Proof. exact fresh_equiv. Qed.
+Print Assumptions C05_fresh_equiv.
+Theorem C05_still_strict : forall c, swf c -> strictb (recs c) = true.
+Proof. exact swf_strict. Qed.
+Print Assumptions C05_still_strict.
+
+(* rejection: ValueError (or the record validation error of add_prefix) and nothing else *)
+Theorem C05_reject : forall fold_c c r cs mg e, swf c -> add_record fold_c c r cs mg = Raise e -> e = EValueError.
+Proof. exact add_record_reject. Qed.
+Print Assumptions C05_reject.
+Theorem C05_reject_history : forall fold_c c o e, swf c -> hstep fold_c c o = Raise e -> e = EValueError \/ e = ERecordValidation.
+Proof. exact hstep_errors. Qed.
+Print Assumptions C05_reject_history.
+
+(* what add_record does: no match -> append; one match with merge -> merge into it; otherwise reject *)
+Theorem C05_cases : forall fold_c c r cs mg, swf c ->
+  match filter (matches_record fold_c cs r) (recs c) with
+  | [] => add_record fold_c c r cs mg = Val (index c r (recs c ++ [r]))
+  | [m] => if mg then add_record fold_c c r cs mg = Val (index c (merge r m) (map (repl m (merge r m)) (recs c)))
+           else add_record fold_c c r cs mg = Raise EValueError
+  | _ => add_record fold_c c r cs mg = Raise EValueError
+  end.
+Proof. exact add_record_cases. Qed.
+Print Assumptions C05_cases.
+
+(* acceptance: merging keeps the existing canonical prefix, canonical URI prefix and pattern; everything new becomes a synonym *)
+Theorem C05_accept : forall fold_c c r cs mg c', swf c -> add_record fold_c c r cs mg = Val c' ->
+  (recs c' = recs c ++ [r] /\ forall r0, In r0 (recs c) -> matches_record fold_c cs r r0 = false)
+  \/ (exists m, In m (recs c) /\ matches_record fold_c cs r m = true /\ mg = true /\
+        recs c' = map (repl m (merge r m)) (recs c) /\
+        r_prefix (merge r m) = r_prefix m /\ r_uri (merge r m) = r_uri m /\ r_pat (merge r m) = r_pat m /\
+        (forall x, In x (all_prefixes (merge r m)) <-> In x (all_prefixes m) \/ In x (all_prefixes r)) /\
+        (forall x, In x (all_uris (merge r m)) <-> In x (all_uris m) \/ In x (all_uris r))).
+Proof. exact add_record_accept. Qed.
+Print Assumptions C05_accept.
+Theorem C05_resolves : forall fold_c c r cs mg c', swf c -> add_record fold_c c r cs mg = Val c' ->
+  (forall p, In p (all_prefixes r) -> exists y, In y (recs c') /\ dget p (synmap c') = Some (r_prefix y) /\ In p (all_prefixes y)) /\
+  (forall u, In u (all_uris r) -> exists y, In y (recs c') /\ find u (ctrie c') = Some (r_prefix y) /\ In u (all_uris y)).
+Proof. exact add_record_resolves. Qed.
+Print Assumptions C05_resolves.
+
+(* C01's incremental clause: parse_uri on an incrementally built converter is the longest-prefix specification *)
+Theorem C05_incremental_parse_uri : forall c, swf c -> forall u, parse_uri_core c u = sp_parse_uri (recs c) u.
+Proof. intros c S u. destruct S as (W & _). exact (WF.L_parse_uri _ _ _ W u). Qed.
+Print Assumptions C05_incremental_parse_uri.
+
+(* non-vacuity: a history with a merge (case-insensitive), a rejection and an append *)
+Definition r (p u : str) ps us := {| r_prefix := p; r_uri := u; r_psyn := ps; r_usyn := us; r_pat := None |}.
+Definition fc (c : chr) : str := if ((65 <=? c) && (c <=? 90))%N then [c + 32]%N else [c].
+Example C05_nonvacuous :
+  exists c0, mk_conv true [58%N] [r [103;111] [104;47] [] []]%N = Val c0 /\
+  let c3 := hrun fc c0 [HAddRecord (r [71;79] [105;47] [[120]] []) false true;     (* "GO" merges into "go" *)
+                        HAddRecord (r [103;111] [106;47] [] []) true false;        (* rejected *)
+                        HAddPrefix [121] [107;47] [] [] true false]%N in           (* appended *)
+  map r_prefix (recs c3) = [[103;111]; [121]]%N /\ map r_psyn (recs c3) = [[[71;79]; [120]]; []]%N /\
+  expand c3 [120;58;49]%N false false = Val (Some [104;47;49]%N) /\
+  compress c3 [105;47;49]%N false false = Val (Some [103;111;58;49]%N).
+Proof. eexists. split; [vm_compute; reflexivity|]. vm_compute. auto. Qed.
